@@ -189,6 +189,35 @@ fn decode_codec(codec: &str, b: &[u8]) -> String {
     }
 }
 
+/// serde forms (bincode and serde_json) of the typed objects: decode(encode(x)) == x and re-encoding gives the same
+/// bytes; the bincode form is reported (it is the raw 32-byte encodings back to back)
+pub fn op_serde(a: &[&str]) -> String {
+    let [codec, h] = a else { return "bad-op".into() };
+    let Some(b) = unhex(h) else { return "bad-op".into() };
+    macro_rules! rt {
+        ($obj:expr, $t:ty, $raw:expr) => {{
+            let obj: $t = $obj;
+            let raw: Vec<u8> = $raw(&obj);
+            let Ok(ser) = bincode::serialize(&obj) else { return "ser-failed".into() };
+            let Ok(de) = bincode::deserialize::<$t>(&ser) else { return "roundtrip-failed:bincode".into() };
+            if $raw(&de) != raw || bincode::serialize(&de).ok().as_ref() != Some(&ser) { return "roundtrip-mismatch:bincode".into() }
+            let Ok(js) = serde_json::to_vec(&obj) else { return "ser-failed".into() };
+            let Ok(dj) = serde_json::from_slice::<$t>(&js) else { return "roundtrip-failed:json".into() };
+            if $raw(&dj) != raw || serde_json::to_vec(&dj).ok().as_ref() != Some(&js) { return "roundtrip-mismatch:json".into() }
+            okhex(&ser)
+        }};
+    }
+    match *codec {
+        "pubkey" => match ElGamalPubkey::try_from(b.as_slice()) { Ok(o) => rt!(o, ElGamalPubkey, |x: &ElGamalPubkey| x.to_bytes().to_vec()), Err(_) => "err".into() },
+        "secret" => match ElGamalSecretKey::try_from(b.as_slice()) { Ok(o) => rt!(o, ElGamalSecretKey, |x: &ElGamalSecretKey| x.as_bytes().to_vec()), Err(_) => "err".into() },
+        "keypair" => match ElGamalKeypair::try_from(b.as_slice()) { Ok(o) => rt!(o, ElGamalKeypair, |x: &ElGamalKeypair| <[u8; 64]>::from(x).to_vec()), Err(_) => "err".into() },
+        "ct" => match ElGamalCiphertext::from_bytes(&b) { Some(o) => rt!(o, ElGamalCiphertext, |x: &ElGamalCiphertext| x.to_bytes().to_vec()), None => "err".into() },
+        "handle" => match DecryptHandle::from_bytes(&b) { Some(o) => rt!(o, DecryptHandle, |x: &DecryptHandle| x.to_bytes().to_vec()), None => "err".into() },
+        "cmt" => match PedersenCommitment::from_bytes(&b) { Some(o) => rt!(o, PedersenCommitment, |x: &PedersenCommitment| x.to_bytes().to_vec()), None => "err".into() },
+        _ => "bad-op".into(),
+    }
+}
+
 pub fn op_decode(a: &[&str]) -> String {
     let [codec, h] = a else { return "bad-op".into() };
     let Some(b) = unhex(h) else { return "bad-op".into() };
